@@ -13,7 +13,7 @@ theorem lookup_cons_eq {β : Type} (k k' : Nat) (v : β) (l : List (Nat × β)) 
     simp [List.lookup, this, h]
 
 theorem consistent_empty (f : Key → Own) : Cache.empty.consistent f := by
-  refine ⟨?_, ?_, ?_⟩ <;> intro k v h <;> simp [Cache.empty, List.lookup] at h
+  refine ⟨?_, ?_, ?_⟩ <;> intro k v h <;> simp [Cache.empty] at h
 
 /-- the state after a call is consistent again -/
 theorem tryBody_consistent (f : Key → Own) (c : Cache) (a : Key) (h : c.consistent f) :
@@ -92,8 +92,58 @@ theorem cachedCall_res (f : Key → Own) (c : Cache) (a : Key) (h : c.consistent
       | none =>
         cases hf : f (.hashable k) with
         | val v => simp
-        | typeErr t => simp [hf]
+        | typeErr t => simp
         | otherErr t => simp
+
+/-! ### the ancestor certificates are the reachability relation -/
+
+theorem rowOk_of_wf {t : Table} (h : t.wf = true) {c : Nat} {row : ClassRow} (hc : t[c]? = some row) :
+    t.rowOk c row = true := by
+  unfold Table.wf at h
+  rw [List.all_eq_true] at h
+  exact h (row, c) (List.mem_zipIdx_iff_getElem?.mpr hc)
+
+/-- on a well-formed table, `under` decides reachability through base classes -/
+theorem under_iff_reach {t : Table} (h : t.wf = true) : ∀ c r, t.under c r = true ↔ Reach t c r := by
+  have hsound : ∀ n c, c < n → ∀ r, t.under c r = true → Reach t c r := by
+    intro n
+    induction n with
+    | zero => intro c hc; omega
+    | succ n ih =>
+      intro c hc r hu
+      unfold Table.under Table.ancOf at hu
+      cases hrow : t[c]? with
+      | none => simp [hrow] at hu
+      | some row =>
+        simp only [hrow] at hu
+        have hok := rowOk_of_wf h hrow
+        simp only [Table.rowOk, Bool.and_eq_true, List.all_eq_true, decide_eq_true_eq] at hok
+        obtain ⟨⟨⟨hlt, _⟩, _⟩, hex⟩ := hok
+        have hr := hex r (List.contains_iff_mem.mp hu)
+        simp only [Bool.or_eq_true, beq_iff_eq, List.any_eq_true] at hr
+        rcases hr with hr | ⟨b, hb, hrb⟩
+        · subst hr; exact Reach.refl hrow
+        · have hbc : b < c := hlt b hb
+          exact Reach.step hrow hb (ih b (by omega) r (by unfold Table.under; exact hrb))
+  intro c r
+  constructor
+  · exact hsound (c + 1) c (by omega) r
+  · intro hre
+    induction hre with
+    | @refl c row hrow =>
+      have hok := rowOk_of_wf h hrow
+      simp only [Table.rowOk, Bool.and_eq_true] at hok
+      unfold Table.under Table.ancOf
+      simp only [hrow]
+      exact hok.1.1.2
+    | @step c b r row hrow hb _ ih =>
+      have hok := rowOk_of_wf h hrow
+      simp only [Table.rowOk, Bool.and_eq_true, List.all_eq_true] at hok
+      obtain ⟨⟨⟨_, _⟩, hsub⟩, _⟩ := hok
+      unfold Table.under Table.ancOf
+      simp only [hrow]
+      have := hsub b hb r (by unfold Table.under at ih; exact List.contains_iff_mem.mp ih)
+      exact this
 
 theorem runChecks_raised_mem (steps : List Step) (i : Nat) (e : Exc) (h : runChecks steps i = some (.raised e)) :
     ∃ s ∈ steps, s.user = some e := by
